@@ -128,6 +128,13 @@ def tok(kind, la, ra, tiers, expect, tmo, mem, two=False):
                 "rule: 1..=%d printable ASCII bytes without '*'/'^'; URL = pre(0..=%d) ++ rule ++ post(0..=%d), no context on an anchored side; anchors la=%s ra=%s" % (n, 2 if two else 1, 2 if two else 1, la, ra),
                 TOK_LAYOUT(n), "c01_tok", asserts="every token the tokenizer emits for the rule is a token of the URL (rule tokens are a subset of URL tokens)",
                 stubs=[PACK], cuts=["patterns containing '*' or '^' (regex kinds)"], consts={"la": la, "ra": ra})
+def star(kind, la, ra):
+    return kern("C01.star.%s" % kind, "src/utils.rs", "h_utils.rs", "c01_star_%s" % kind, [Q, T], 370, {Q: 1500, T: 3000}, 6,
+                ["utils::fast_tokenizer_no_regex (rule with the flags get_tokens passes for a wildcard pattern, URL with (false,false))"],
+                "rule = a ++ '*' ++ b with a, b 0..=3 printable ASCII bytes; URL = pre? ++ a ++ mid? ++ b ++ post? (one byte each), no pre/post on an anchored side; anchors la=%s ra=%s" % (la, ra),
+                [("ab", B(3)), ("al", "usize"), ("bb", B(3)), ("bl", "usize"), ("pre", "u8"), ("mid", "u8"), ("post", "u8"), ("has_pre", "bool"), ("has_mid", "bool"), ("has_post", "bool")], "c01_star",
+                asserts="every token emitted for a wildcard pattern is a token of every URL the pattern matches by construction ('*' = any run): tokens next to '*' are never bucket keys",
+                stubs=[PACK], cuts=["'^' patterns; the regex matcher itself (the URL is built to match under ABP semantics)"], consts={"la": la, "ra": ra})
 def gt(kind, la, ra, tiers, expect, tmo, mem):
     return kern("C01.gt.%s" % kind, "src/filters/network.rs", "h_network.rs", "c01_gt_%s" % kind, tiers, expect, tmo, mem,
                 ["filters::network::NetworkFilter::get_tokens", "utils::tokenize_filter", "utils::tokenize_pooled", "utils::fast_tokenizer_no_regex", "utils::is_allowed_filter"],
@@ -138,10 +145,11 @@ def gt(kind, la, ra, tiers, expect, tmo, mem):
 
 PROPERTIES["C01"] = dict(
     kernels=[
-        tok("plain", False, False, [Q], 160, {Q: 900, T: 1800}, 8),
-        tok("left", True, False, [Q], 140, {Q: 900, T: 1800}, 8),
-        tok("right", False, True, [Q], 170, {Q: 900, T: 1800}, 8),
-        tok("both", True, True, [Q], 150, {Q: 900, T: 1800}, 8),
+        tok("plain", False, False, [Q], 260, {Q: 1200, T: 1800}, 5),
+        tok("left", True, False, [Q], 250, {Q: 1200, T: 1800}, 5),
+        tok("right", False, True, [Q], 270, {Q: 1200, T: 1800}, 5),
+        tok("both", True, True, [Q], 250, {Q: 1200, T: 1800}, 5),
+        star("plain", False, False), star("right", False, True), star("left", True, False), star("both", True, True),
         kern("C01.l1c", "src/utils.rs", "h_utils.rs", "c01_l1c", [Q, T], 20, 600, 4, ["utils::is_allowed_filter"], "every ASCII byte",
              [("c", "u8")], "c01_l1c", asserts="is_allowed_filter(c) <=> c in [0-9A-Za-z%]"),
         kern("C01.bin", "src/utils.rs", "h_utils.rs", "c01_bin_lookup", [Q, T], 10, 600, 4, ["utils::bin_lookup"], "sorted arrays of 0..=3 symbolic u64, symbolic needle",
